@@ -66,6 +66,9 @@ def oracle(cases, obs, light=False):
     return fails, tainted
 
 
+FFAILS = []
+
+
 def known_finding_status():
     out = []
     for e in vlib.known_findings("C01"):
@@ -91,11 +94,25 @@ def run(ctx):
     ctx.scale_if_changed()
     proof_ok = vlib.standard_proof_part(ctx, "props/C01.v", extra_targets=["run/RunManager.vo", "proofs/TasksSrc.vo", "proofs/TasksSrcData.vo", "proofs/TasksSrcRefresh.vo"], translators=["tasks"])
     n = ctx.pick(300, 6000)
-    cases = [wide_case(6), wide_case(25)]
+    cases = [wide_case(6), wide_case(25), mc.wide_case(ctx.rng, 67), mc.wide_case(ctx.rng, 140)]
     cases += [mc.gen_history(ctx.rng, ["assign", "assign", "assign_flat"][i % 3], nops=ctx.rng.randint(4, 25 if i % 7 else 40)) for i in range(n)]
     obs = mc.run_impl_cases(cases)
     mism = mc.model_compare(ctx, cases, obs, "c01")
     fails, tainted = oracle(cases, obs)
+    # function and linear-knob tasks (name- and ref-identified, actions given as plain callables and as bound methods, knob
+    # targets as lists and as sets): "each target of a function or linear-knob task holds what that task prescribes" is
+    # judged by the exact correspondence with the model (register / load do not run the new task, so the pull-model
+    # oracle does not apply between the registration and the next triggering assignment)
+    fcases = [mc.gen_history(ctx.rng, ["dag", "mixed"][i % 2], nops=ctx.rng.randint(5, 18)) for i in range(ctx.pick(120, 2500))]
+    fobs = mc.run_impl_cases(fcases)
+    fm = mc.model_compare(ctx, fcases, fobs, "c01f")
+    for i, (c, ol) in enumerate(zip(fcases, fobs)):
+        for k, o in enumerate(ol):
+            if o["err"] is None and o["oracle"].get("fun_inconsistent") and mc.tainted_prefix(ol[:k + 1]) is None:
+                FFAILS.append((i, k, "a target of a function task that ran does not hold what the task prescribes: "
+                               + json.dumps(o["oracle"]["fun_inconsistent"][:3])))
+                break
+    ctx.evaluations += sum(len(c["ops"]) for c in fcases)
     big = [mc.chain_case(ctx.pick(1500, 5000)), mc.chain_case(ctx.pick(1500, 5000), reverse=True)]
     bobs = mc.run_impl_cases(big, opts={"snapshots": False})
     bf, _ = oracle(big, bobs, light=True)
@@ -127,7 +144,9 @@ def run(ctx):
                             f"container): witness g.n.x=g.a*2; g.n.z=g.n.y*3; g.n.y=g.n.x+1; g.a=5 fails for PYTHONHASHSEED in {failing}")
         else:
             ctx.notes.append("known finding C01/ordering-cycle: the listed witness no longer fails on this tree")
-    allc, allo = cases + big + pc, obs + bobs + po
+    allc, allo = cases + big + pc + fcases, obs + bobs + po + fobs
+    fails += [(len(cases) + len(big) + len(pc) + i, k, w) for i, k, w in FFAILS]
+    mism = mism + [(len(cases) + len(big) + len(pc) + i, k) for i, k in fm]
     for c, ol in zip(cases, obs):
         defs = 0
         for k, (op, o) in enumerate(zip(c["ops"], ol)):
